@@ -172,6 +172,10 @@ def install_choice():
 # CrossHair engine quirks
 # --------------------------------------------------------------------------
 def install_engine_quirks():
+    import logging
+
+    logging.disable(logging.CRITICAL)
+    USED.append("logging: disabled process-wide (log records read the clock, which the engine would turn into symbolic floats; logging is never the subject)")
     try:
         import crosshair.core as core
         from crosshair.tracers import NoTracing
